@@ -165,7 +165,7 @@ def _limit(name):
 # ----------------------------------------------------------------------------- workers
 HB_DIR = "/dev/shm"
 STUCK_CPU_S = 25.0      # CPU spent on ONE call although the in-process watchdog is 5 s: an uninterruptible loop
-STUCK_WALL_S = 600.0
+STUCK_WALL_S = 2400.0
 
 
 def _hb_path(run_id, pid):
